@@ -71,6 +71,7 @@ class ULPIRegisterWindow(Elaboratable):
         self.ulpi_stop     = Signal()
 
         self.busy          = Signal()
+        self.reading       = Signal()
         self.address       = Signal(6)
         self.done          = Signal()
 
@@ -98,6 +99,9 @@ class ULPIRegisterWindow(Elaboratable):
 
             # We're busy whenever we're not IDLE; indicate so.
             m.d.comb += self.busy.eq(~fsm.ongoing('IDLE'))
+
+            # Indicate when the PHY is driving the bus with the data for our read (rather than with RxCmds).
+            m.d.comb += self.reading.eq(fsm.ongoing('READ_TURNAROUND') | fsm.ongoing('READ_COMPLETE'))
 
             # IDLE: wait for a request to be made
             with m.State('IDLE'):
@@ -897,7 +901,9 @@ class UTMITranslator(Elaboratable):
 
             # Connect our data inputs to the event decoder.
             # Note that the event decoder is purely passive.
-            rxevent_decoder.register_operation_in_progress.eq(register_window.busy),
+            # (Only a register _read_ makes the PHY present something other than an RxCmd; a register
+            # write that's waiting for the bus mustn't keep us from seeing the RxCmds that arrive meanwhile.)
+            rxevent_decoder.register_operation_in_progress.eq(register_window.reading),
             self.last_rx_command          .eq(rxevent_decoder.last_rx_command),
 
             # Connect our inputs to our transmit translator.
